@@ -425,6 +425,19 @@ func scalarToHeader(a interface{}) (hdr *storage.Header, newAlloc bool) {
 	var raw []byte
 	switch at := a.(type) {
 	case Memory:
+		if t, ok := a.(Tensor); ok {
+			// a tensor standing for the scalar is an operand, never a destination; it may be a view on a
+			// storage window of several cells (a[0:3:3] selects one element of a window of three), and it may
+			// be the reuse tensor as well. The kernels, which compute in place in one-element operands, get a
+			// copy of its element and not its memory.
+			if es := t.Dtype().Size(); es <= at.MemSize() {
+				raw = scalarPool(es).Get().([]byte)
+				copy(raw, storage.FromMemory(at.Uintptr(), es))
+				hdr = borrowHeader()
+				hdr.Raw = raw
+				return hdr, true
+			}
+		}
 		raw = storage.FromMemory(at.Uintptr(), at.MemSize())
 	default:
 		raw = allocScalar(a)
